@@ -231,8 +231,8 @@ LearnerSet.canaries = {"given_key_keeps_its_old_value": _canary_old_value_kept}
 NM = 12
 
 
-def _stacking(E):
-    ms = [generic_model(E, "m%d" % i, nkeys=1, methods=("fit", "transform", "get_params", "set_params")) for i in range(NM)]
+def _stacking(E, nm=NM, tag=""):
+    ms = [generic_model(E, "m%s%d" % (tag, i), nkeys=1, methods=("fit", "transform", "get_params", "set_params")) for i in range(nm)]
     s = E.new_obj(SK + "sklearn_base_transform_stacking.py::SkBaseTransformStacking",
                   dict(P=_P(E, extra=val(E, "extra")), models=ms, method="predict"))
     return s
@@ -241,11 +241,17 @@ def _stacking(E):
 @contract(SK + "sklearn_base_transform_stacking.py::SkBaseTransformStacking.set_params", "C01")
 class StackingSet(Contract):
     """12 members: every member index (one and two digits) x an arbitrary parameter name"""
-    variants = [("member", i) for i in range(NM)] + [("method", None), ("extra", None), ("extra_none", None)]
+    variants = [("member", i) for i in range(NM)] + [("method", None), ("extra", None), ("extra_none", None)] + \
+               [("roundtrip", (2, 3)), ("roundtrip", (3, 2)), ("roundtrip", (2, 2))]
     max_paths = 20000
 
     def setup(self, E, v):
         kind, i = v
+        if kind == "roundtrip":
+            # everything get_params(deep=True) of ANOTHER instance reports - with more, fewer or as many members - given to set_params at once
+            s, other = _stacking(E, i[0]), _stacking(E, i[1], tag="o")
+            values = E.call_method(other, "get_params", [True], {}, None)
+            return dict(self=s, values=values, _given=dict(values), _before=None, _other=other)
         s = _stacking(E)
         before = E.call_method(s, "get_params", [True], {}, None)
         if kind == "member":
@@ -263,9 +269,14 @@ class StackingSet(Contract):
 
     def ensures(self, E, a, res, old):
         after = E.call_method(a.self, "get_params", [True], {}, None)
-        return {"returns_self": z3.BoolVal(res is a.self),
-                "every_given_key_is_reported": z3.And(*[same(lookup(E, after, k), v) for k, v in dicts.items(a._given)]),
-                "other_keys_unchanged_and_still_advertised": dict_eq_on(E, after, a._before, except_keys=list(dicts.keys(a._given)))}
+        out = {"returns_self": z3.BoolVal(res is a.self),
+               "every_given_key_is_reported": z3.And(*[same(lookup(E, after, k), v) for k, v in dicts.items(a._given)])}
+        if a._before is not None:
+            out["other_keys_unchanged_and_still_advertised"] = dict_eq_on(E, after, a._before, except_keys=list(dicts.keys(a._given)))
+        else:
+            theirs = E.call_method(a._other, "get_params", [True], {}, None)
+            out["reports_the_same_parameters_as_the_source_instance"] = dict_eq_on(E, after, theirs)
+        return out
 
 
 # ----------------------------------------------------------------------------- ClassifierAfterKMeans
